@@ -40,12 +40,19 @@ func statusEndpoints(n *TNode) (map[string]int, error) {
 }
 
 func TestC16(t *testing.T) {
-	vlib.SetRule("C16", "TestC16", "1-2 real nodes with an HMAC-protected upstream port; 2-6 upstream listeners on shared and distinct endpoints connect through cuttable relays and end in a drawn order by: client Shutdown, go-away (optionally hit by a request, the proxy's ErrGone removal) then Shutdown, abrupt relay cut (FIN or RST), server-initiated shedding (Rebalance), optionally with a slow request in flight; then 0-2 listeners with a token expiring 1.2-2.2 s ahead (disconnect-on-expiry enabled or disabled per cluster); finally node shutdown; oracle at every quiescent point: status API registry == cluster endpoints == model of open connections and open-session count == model, everything empty/0 after shutdown; expiry: still registered 300 ms before exp, deregistered in [exp, exp+deadline], or still registered 1 s after exp when disabled; in-flight requests end in 200 or a gateway error; non-trivial = two different ending modes hit the same endpoint while a sibling stays connected, or an ending with a request in flight")
+	vlib.SetRule("C16", "TestC16", "1-2 real nodes with an HMAC-protected upstream port; 2-6 upstream listeners on shared and distinct endpoints connect through cuttable relays and end in a drawn order by: client Shutdown, go-away (optionally hit by a request, the proxy's ErrGone removal) then Shutdown, abrupt relay cut (FIN or RST), server-initiated shedding (Rebalance), optionally with a slow request in flight; then 0-2 listeners with a token expiring 1.2-2.2 s ahead (disconnect-on-expiry enabled or disabled per cluster); finally node shutdown (in a third of the cases with a 1 s grace period while a client that sent half a request occupies the upstream port); oracle at every quiescent point: status API registry == cluster endpoints == model of open connections and open-session count == model, everything empty/0 after shutdown; expiry: still registered 300 ms before exp, deregistered in [exp, exp+deadline], or still registered 1 s after exp when disabled; in-flight requests end in 200 or a gateway error; non-trivial = two different ending modes hit the same endpoint while a sibling stays connected, or an ending with a request in flight")
 	vlib.Run(t, "C16", func(c *vlib.Case) {
 		k := TestKeys()
 		N := c.Int("nodes", 1, 2)
 		disableExpiry := c.Chance("disableDisconnectOnExpiry", 1, 3)
+		// some nodes are shut down while a client that has sent only part of a request
+		// occupies their upstream port: the HTTP drain then runs into the (short) grace
+		// period, and the upstream connections must be released all the same
+		stalled := c.Chance("stalledConnAtShutdown", 1, 3)
 		cl, err := StartCluster(N, false, func(i int, conf *config.Config) {
+			if stalled {
+				conf.GracePeriod = time.Second
+			}
 			conf.Upstream.Auth.HMACSecretKey = string(k.HMAC)
 			conf.Upstream.Auth.DisableDisconnectOnExpiry = disableExpiry
 			conf.Upstream.Rebalance.MinConns = 0
@@ -327,6 +334,17 @@ func TestC16(t *testing.T) {
 		}
 		// node shutdown releases everything
 		for _, n := range cl.Nodes {
+			if stalled {
+				sc, err := net.DialTimeout("tcp", n.UpstreamAddr(), 5*time.Second)
+				if err != nil {
+					c.Harnessf("dial upstream port: %v", err)
+				}
+				defer sc.Close()
+				_, _ = sc.Write([]byte("GET /piko/v1/upstream/e1 HTTP/1.1\r\nHost: stalled\r\nX-Partial: "))
+				time.Sleep(50 * time.Millisecond) // let the server start reading the request
+				c.Stepf("a client with half a request occupies the upstream port of %s during its shutdown (grace period 1s)", n.ID)
+				c.Class("shutdown-with-stalled-connection")
+			}
 			n.Up = false
 			done := make(chan struct{})
 			go func() { n.Srv.Shutdown(); close(done) }()
